@@ -13,28 +13,43 @@
 (*           predicate true/false, object construction and mutation,       *)
 (*           float / collection / enum values (assertion kinds), print,    *)
 (*           raise at position k (builtin, SUT-defined, not rebuildable by *)
-(*           pickle, SystemExit), crossed with the assertion attachments   *)
-(*           that the verification observer distinguishes.                 *)
+(*           pickle, SystemExit, SUT exception with a custom __reduce__    *)
+(*           carrying a SUT object with __getstate__/__setstate__), crossed *)
+(*           with the binding patterns (assignments / expression           *)
+(*           statements that bind no variable: first, last, every          *)
+(*           statement) and the assertion attachments that the             *)
+(*           verification observer distinguishes.                          *)
 (* "proto"   batches over time classes: fast, raising, endless loop in     *)
 (*           instrumented code, endless wait in uninstrumented code,       *)
 (*           child-only crash; they exercise poll timeout, EOF and the     *)
 (*           fallback to one process per test case.                        *)
+(* "slow"    batches over test cases with statements that sleep SlowDur    *)
+(*           units in uninstrumented code and then return (M = 24,         *)
+(*           Per = 2, SlowDur = 3): slower than the time per statement but *)
+(*           well inside TestBudget, or (two sleeps in two statements)     *)
+(*           well beyond it - a deterministic timeout in every executor    *)
+(*           that computes the budget of the test case as TestBudget.      *)
 (***************************************************************************)
 EXTENDS SubprocessExec, Json
 
 CONSTANTS MaxLen,      \* shapes: maximal number of statements
           MaxBatch     \* proto: maximal number of test cases in a batch
 
-ShapeOps == {"lit", "recT", "recF", "obj", "mut", "flt", "coll", "enum", "prt",
-             "exc", "excS", "excU", "exit"}
-WellFormed(ops) == \A k \in DOMAIN ops : ops[k] = "mut" => \E j \in 1..(k - 1) : ops[j] = "obj"
-OpSeqs == {s \in SeqsUpTo(ShapeOps, MaxLen) : WellFormed(s)}
+ShapeOps == {"lit", "recT", "recF", "obj", "mut", "objR", "flt", "coll", "enum", "prt",
+             "exc", "excS", "excU", "excR", "exit"}
+OpSeqs == SeqsUpTo(ShapeOps, MaxLen)
 MixAtts == <<"fail", "gen", "err", "xwrong">>
 Mixed(ops, shift) == [k \in DOMAIN ops |-> St(ops[k], MixAtts[((k + shift) % 4) + 1])]
 \* all attachment patterns for short test cases, two patterns for the longest ones
 PatternsOf(s) == IF Len(s) <= 2 THEN {Uniform(s, a) : a \in Atts} \cup {Mixed(s, h) : h \in 0..3}
                  ELSE {Uniform(s, "none"), Mixed(s, 0)}
-ShapePrograms == UNION {PatternsOf(s) : s \in OpSeqs}
+\* binding patterns: every statement an assignment; the last / the first / every statement an
+\* expression statement
+UnbAt(p, K) == [k \in DOMAIN p |-> IF k \in K THEN Unb(p[k]) ELSE p[k]]
+BindingsOf(p) == {p, UnbAt(p, {Len(p)}), UnbAt(p, {1}), UnbAt(p, DOMAIN p)}
+\* a mutation needs a variable that holds an object
+WellFormed(p) == \A k \in DOMAIN p : p[k].op = "mut" => \E j \in 1..(k - 1) : p[j].op \in Objs /\ p[j].bnd
+ShapePrograms == {q \in UNION {BindingsOf(p) : p \in UNION {PatternsOf(s) : s \in OpSeqs}} : WellFormed(q)}
 ShapeBatches == {<<p>> : p \in ShapePrograms}
 
 PF == Uniform(<<"lit", "lit", "recT">>, "none")      \* fast, generous timeout
@@ -44,6 +59,17 @@ PN == Uniform(<<"nap">>, "none")                     \* endless wait in uninstru
 PD == Uniform(<<"recT", "die", "recT">>, "none")     \* kills the child that executes it
 ProtoPrograms == {PF, PX, PS, PN, PD}
 ProtoBatches == SeqsUpTo(ProtoPrograms, MaxBatch)
+
+\* slow family (M = 24, Per = 2, SlowDur = 3): eight statements have a budget of 16
+PW  == Uniform(<<"lit", "lit", "recT", "slow", "recF", "lit", "lit", "recT">>, "none")
+\* ... ending in a raising expression statement
+PWX == UnbAt(Uniform(<<"lit", "recT", "lit", "slow", "lit", "lit", "recF", "excS">>, "none"), {8})
+\* two sleeps (6 units) in eight statements
+PWW == UnbAt(Uniform(<<"slow", "lit", "recT", "lit", "lit", "recF", "slow", "lit">>, "none"), {7})
+\* two sleeps in two statements: budget 4, still asleep when it runs out
+PV  == Uniform(<<"slow", "slow">>, "none")
+SlowPrograms == {PF, PW, PWX, PWW, PV}
+SlowBatches == SeqsUpTo(SlowPrograms, MaxBatch)
 
 AllNone(p) == \A k \in DOMAIN p : p[k].att = "none"
 \* the attachments only matter to the verification observer
@@ -59,5 +85,8 @@ Emit == ppc = "done" =>
           PrintT(<<"HIST", ToJson([tests |-> tests, obs |-> obs, path |-> path,
                                    exp |-> [i \in 1..N |-> Proj(Expected(i))],
                                    res |-> [i \in 1..N |-> Proj(results[i])],
-                                   det |-> [i \in 1..N |-> Det(tests[i])]])>>)
+                                   det |-> [i \in 1..N |-> Det(tests[i])],
+                                   tm |-> <<M, Per, SlowDur>>,
+                                   budget |-> [i \in 1..N |-> TestBudget(tests[i], M, Per)],
+                                   dur |-> [i \in 1..N |-> Dur(tests[i])]])>>)
 =============================================================================
